@@ -24,33 +24,38 @@ def modeOf : Nat → Reader.Mode
 
 def hexOf (b : List UInt8) : String := toHex b
 
-/-- `ret;defs;vals` of one `carquet_column_read_batch` of the whole chunk; `optional` = the
-harness passes a def_levels array (the case's column is OPTIONAL) -/
-def renderRead (optional : Bool) (r : ColumnReader.ReadResult Reader.Bytes) : String :=
+/-- `ret;defs;vals[;reps]` of one `carquet_column_read_batch` of the whole chunk; `optional` = the
+harness passes a def_levels array (the case's column is OPTIONAL or REPEATED), `repeated` = it also
+passes a rep_levels array (REPEATED) and prints the fourth field -/
+def renderRead (optional repeated : Bool) (r : ColumnReader.ReadResult Reader.Bytes) : String :=
   let got := r.count
   let n := got.toNat
   let defChars := (r.defs.take n).map (fun d => match d with | some 1 => '1' | some 0 => '0' | _ => '?')
+  let repChars := (r.reps.take n).map (fun d => match d with | some 1 => '1' | some 0 => '0' | _ => '?')
   let nn := if got > 0 then (if optional then (defChars.filter (· == '1')).length else n) else 0
   let defsStr := if got > 0 ∧ optional then String.ofList defChars else "-"
   let vals := (r.vals.take nn).map (fun v => match v with | some x => hexOf x | none => "UNINIT")
-  s!"{got};{defsStr};{if nn = 0 then "-" else ":".intercalate vals}"
+  let base := s!"{got};{defsStr};{if nn = 0 then "-" else ":".intercalate vals}"
+  if repeated then s!"{base};{if got > 0 then String.ofList repChars else "-"}" else base
 
 /-- harness `read_chunk` on the model reader -/
-def readChunkStr (mode : Reader.Mode) (file : List UInt8) (o : Reader.Opened) (g c : Nat) (optional : Bool) : String :=
-  match Reader.readChunk Reader.Fixes.all noLibs true mode file o g c optional with
+def readChunkStr (mode : Reader.Mode) (file : List UInt8) (o : Reader.Opened) (g c : Nat) (optional repeated : Bool) : String :=
+  match Reader.readChunkR Reader.Fixes.all noLibs true mode file o g c optional repeated with
   | .error e => s!"E{e.code};-;-"
-  | .ok r => renderRead optional r
+  | .ok r => renderRead optional repeated r
 
 /-! ### the table a history intends (harness `ech_add` / `expected_chunk`) -/
 
 structure EChunk where
   nrows : Nat := 0
   defs : List Nat := []
+  reps : List Nat := []
   vals : List (List UInt8) := []
 
 def addBatch (e : EChunk) (b : Writer.Batch) : EChunk :=
   { nrows := e.nrows + b.nrows,
     defs := e.defs ++ (match b.defs with | some ds => ds | none => List.replicate b.nrows 1),
+    reps := e.reps ++ (match b.reps with | some rs => rs | none => List.replicate b.nrows 0),
     vals := e.vals ++ b.vals }
 
 /-- row groups = maximal runs of batches between `rg` steps -/
@@ -65,9 +70,19 @@ def intended (ncols : Nat) (ops : List Writer.Op) : List (List EChunk) :=
       go rest (some (g.modify b.col (fun e => addBatch e b))) acc
   go ops none []
 
-def expectedStr (optional : Bool) (e : EChunk) : String :=
+def expectedStr (optional repeated : Bool) (e : EChunk) : String :=
   let defs := if e.nrows = 0 then "-" else if optional then String.ofList (e.defs.map (fun d => if d = 1 then '1' else '0')) else "-"
-  s!"{e.nrows};{defs};{if e.vals.isEmpty then "-" else ":".intercalate (e.vals.map hexOf)}"
+  let base := s!"{e.nrows};{defs};{if e.vals.isEmpty then "-" else ":".intercalate (e.vals.map hexOf)}"
+  if repeated then
+    s!"{base};{if e.nrows = 0 then "-" else String.ofList (e.reps.map (fun d => if d = 1 then '1' else '0'))}"
+  else base
+
+/-- `num_rows` the history intends: per row group the rows of its first column (a REPEATED column
+starts a row at every repetition level 0) -/
+def intendedRows (firstRepeated : Bool) (gs : List (List EChunk)) : Nat :=
+  (gs.map (fun g => match g.head? with
+                    | some e => if firstRepeated then (e.reps.filter (· == 0)).length else e.nrows
+                    | none => 0)).sum
 
 /-! ### the table the REAL reader returned, and the table of the theorem
 
@@ -78,8 +93,14 @@ reader returned) are parsed into a `Reader.Table`; the property predicate is "th
 
 /-- one `ret;defs;vals` field as a column of a `Reader.Table` (`none`: an error, an uninitialised
 slot, or a malformed field).  Without a def_levels array (REQUIRED column) every row has level 0. -/
-def parseField (optional : Bool) (s : String) : Option Reader.ColumnData :=
-  match s.splitOn ";" with
+def parseField (optional repeated : Bool) (s : String) : Option Reader.ColumnData :=
+  match (if repeated then (match s.splitOn ";" with
+                           | [ret, defs, vals, reps] =>
+                             -- a REPEATED column: the repetition levels are tied through the rendered strings
+                             -- (`reader_model_<mode>`, `readback_is_intended_table`); `Reader.Table` has none
+                             if reps == "-" || reps.toList.all (fun ch => ch == '0' || ch == '1') then [ret, defs, vals] else []
+                           | _ => [])
+         else s.splitOn ";") with
   | [ret, defs, vals] => do
     let n ← ret.toNat?
     let ds ← (if n = 0 then some []
@@ -92,9 +113,9 @@ def parseField (optional : Bool) (s : String) : Option Reader.ColumnData :=
   | _ => none
 
 /-- the table the real reader returned (all row groups must be on the line) -/
-def realTable (ncols : Nat) (optionalOf : Nat → Bool) (fieldOf : Nat → Nat → String) (nrg : Nat) (rows : Int) :
+def realTable (ncols : Nat) (optionalOf repeatedOf : Nat → Bool) (fieldOf : Nat → Nat → String) (nrg : Nat) (rows : Int) :
     Option Reader.Table :=
-  ((List.range nrg).mapM (fun g => (List.range ncols).mapM (fun c => parseField (optionalOf c) (fieldOf g c)))).map
+  ((List.range nrg).mapM (fun g => (List.range ncols).mapM (fun c => parseField (optionalOf c) (repeatedOf c) (fieldOf g c)))).map
     (fun gs => ⟨rows, gs⟩)
 
 def readAllIs (mode : Reader.Mode) (file : List UInt8) (t : Reader.Table) : Bool :=
@@ -127,18 +148,19 @@ def readChecks (cols : List Writer.Col) (codec : Nat) (ops : List Writer.Op) (fi
         let modesAgree := l.outNat "p_modes" == some 1
         let gs := List.range (min nrg 16)
         let cs := List.range cols.length
-        let optionalOf (c : Nat) : Bool := match cols[c]? with | some col => col.rep == .optional | none => false
+        let optionalOf (c : Nat) : Bool := match cols[c]? with | some col => col.rep != .required | none => false
+        let repeatedOf (c : Nat) : Bool := match cols[c]? with | some col => col.rep == .repeated | none => false
         let cells := gs.flatMap (fun g => cs.map (fun c => (g, c)))
         let fieldOf (g c : Nat) : String := (l.outStr s!"r{g}_{c}").getD "<missing>"
         let tie (mode : Reader.Mode) : Bool :=
-          cells.all (fun gc => readChunkStr mode file o gc.1 gc.2 (optionalOf gc.2) == fieldOf gc.1 gc.2)
+          cells.all (fun gc => readChunkStr mode file o gc.1 gc.2 (optionalOf gc.2) (repeatedOf gc.2) == fieldOf gc.1 gc.2)
         let openOk (m : Reader.Mode) : Bool :=
           match Reader.openFile m file with
           | .ok o' => o'.numRowGroups == o.numRowGroups && o'.md.numRows == o.md.numRows && o'.numColumns == o.numColumns
           | .error _ => false
         let exp := intended cols.length ops
         -- the theorem's table: what the real reader returned, as a `Reader.Table`, against `readerTableOf`
-        let real := if nrg ≤ 16 then realTable cols.length optionalOf fieldOf nrg rows else none
+        let real := if nrg ≤ 16 then realTable cols.length optionalOf repeatedOf fieldOf nrg rows else none
         let theoremTable := Writer.readerTableOf cols ops
         let tableChecks : List (String × Bool) :=
           if nrg ≤ 16 then [("readback_is_readerTableOf", real == some theoremTable)] else []
@@ -151,11 +173,11 @@ def readChecks (cols : List Writer.Col) (codec : Nat) (ops : List Writer.Op) (fi
                                    ("reader_model_readAll_buffer", readAllIs .buffer file t)] else [])
             else []
           | none => []
-        let propOk := exp.length == nrg &&
+        let propOk := exp.length == nrg && rows == (intendedRows (repeatedOf 0) exp : Int) &&
           (cells.all (fun gc =>
             match exp[gc.1]? with
             | some g => (match g[gc.2]? with
-                         | some e => expectedStr (optionalOf gc.2) e == fieldOf gc.1 gc.2
+                         | some e => expectedStr (optionalOf gc.2) (repeatedOf gc.2) e == fieldOf gc.1 gc.2
                          | none => false)
             | none => false))
         ([("reader_model_nrg", o.numRowGroups == nrg), ("reader_model_rows", o.md.numRows == rows),
